@@ -18,7 +18,9 @@ Inductive op :=
 | ONewStatic (who : N) (compress : bool) (keys dts : list N)
 | ONewDynamic (who : N) (compress : bool)
 | OUpdate (who : N) (keys : list N) (kd : list (N * N)) (cls : N)
-| OEncode (who : N) (f : frame) (cls : N) (bytes : list N)
+(* mutated: what Encode did to the caller's sample memory — 0 nothing, 1 bytes of the shared
+   backing block outside every series changed, 2 the data of a series of the frame changed *)
+| OEncode (who : N) (f : frame) (cls : N) (bytes : list N) (mutated : N)
 | ODecode (who : N) (stream : bool) (bs : list N) (cls : N) (fr : frame) (alloc : N)
 (* (Density(), IsVariable()) of data type codes 0..15 as the real telem package reports them *)
 | ODtTable (tbl : list (N * N)).
@@ -97,13 +99,14 @@ Definition mstep (V : variant) (e : env) (o : op) : env * bool :=
                   | Some c' => (env_set who c' e, negb (cls =? cls_ok))
                   end
       end
-  | OEncode who f cls bytes =>
+  | OEncode who f cls bytes mutated =>
       match env_get who e with
       | None => (e, negb (cls =? cls_skip))
       | Some c =>
           let '(c', out) := c_encode c f in
           (env_set who c' e,
-           negb ((cls =? cls_of out) &&
+           (* the model's encoder is a function of the frame: it never writes to its input *)
+           negb ((cls =? cls_of out) && (mutated =? 0) &&
                  match out with Ok b => eq_listN b bytes | _ => true end))
       end
   | ODecode who stream bs cls fr alloc =>
@@ -149,7 +152,7 @@ Definition vstep (e : env) (le : lastenc) (o : op) : env * lastenc * bool :=
                   | Some c' => (env_set who c' e, le, false)
                   end
       end
-  | OEncode who f cls bytes =>
+  | OEncode who f cls bytes mutated =>
       match env_get who e with
       | None => (e, le, false)
       | Some c =>
@@ -160,8 +163,8 @@ Definition vstep (e : env) (le : lastenc) (o : op) : env * lastenc * bool :=
               let seq := lenN (c_states c') in
               (env_set who c' e,
                (if cls =? cls_ok then Some (st, seq, f, bytes) else le),
-               (* a valid frame must have an encoding *)
-               frame_valid st f && (seq <? two32) && negb (cls =? cls_ok))
+               (* a valid frame must have an encoding, and still be that frame afterwards *)
+               frame_valid st f && (seq <? two32) && (negb (cls =? cls_ok) || (mutated =? 2)))
           end
       end
   | ODecode who stream bs cls fr alloc =>
@@ -215,7 +218,7 @@ Fixpoint dump_run (V : variant) (e : env) (ops : list op) : list dump :=
   | [] => []
   | o :: r =>
       let d := match o with
-               | OEncode who f _ _ =>
+               | OEncode who f _ _ _ =>
                    match env_get who e with
                    | Some c => let out := snd (c_encode c f) in
                                DEnc (cls_of out) (match out with Ok b => b | _ => [] end)
